@@ -392,3 +392,28 @@ Check mup_from_api_preserves_wf :
     v6_range v6r -> api_mup_in_range x -> mup_from_api v6r x = Some n ->
     wf_mup n /\ N.of_nat (length (mup_body n)) < 256.
 Print Assumptions mup_from_api_preserves_wf.
+
+(* (30) Every MUP route the MUP decoder produces from received octets (whole octets of a prefix and of
+   a partial TEID are kept, including bits of the last octet beyond the bit length) satisfies the
+   invariant of theorems 28 / 29. *)
+Theorem mup_decoded_is_wf :
+  forall (v6 : bool) (rt : N) (data : list N) (n : mup),
+    bytes_ok data -> mup_decode_body v6 rt data = Some n -> wf_mup n.
+Proof. exact C17_mup_decoded_is_wf. Qed.
+Check mup_decoded_is_wf :
+  forall (v6 : bool) (rt : N) (data : list N) (n : mup),
+    bytes_ok data -> mup_decode_body v6 rt data = Some n -> wf_mup n.
+Print Assumptions mup_decoded_is_wf.
+
+(* (31) The held-value direction of the round trip: a MUP route decoded from the wire, listed by
+   nlri_to_api and given back to net_from_api is accepted as the identical route. *)
+Theorem mup_held_roundtrip :
+  forall (v6p : N -> list N) (v6r : list N -> option N) (v6 : bool) (rt : N) (data : list N) (n : mup),
+    v6_contract v6p v6r -> v6_nonempty v6p -> bytes_ok data ->
+    mup_decode_body v6 rt data = Some n -> mup_from_api v6r (mup_to_api v6p n) = Some n.
+Proof. exact C17_mup_held_roundtrip. Qed.
+Check mup_held_roundtrip :
+  forall (v6p : N -> list N) (v6r : list N -> option N) (v6 : bool) (rt : N) (data : list N) (n : mup),
+    v6_contract v6p v6r -> v6_nonempty v6p -> bytes_ok data ->
+    mup_decode_body v6 rt data = Some n -> mup_from_api v6r (mup_to_api v6p n) = Some n.
+Print Assumptions mup_held_roundtrip.
